@@ -306,3 +306,56 @@ func scenarioServeEndedOnReadError() (bool, string) {
 }
 
 func init() { scenarios["c07-serve-ended-on-read-error"] = scenarioServeEndedOnReadError }
+
+// Schedules in which a Serve call and a Shutdown call both wait for the server's mutex (held by the harness through
+// the verif hook VerifHoldServer) and get it in a chosen order. sync.Mutex wakes its waiters first come, first
+// served when nobody else competes. Either way the Serve call returns ErrServerShutdown and Shutdown returns nil
+// only once that call is over.
+func scenarioQueuedOnMutex() (bool, string) {
+	for round := 0; round < 6; round++ {
+		shutdownFirst := round%2 == 0
+		conn := &sharedConn{errOnce: make(chan struct{}), closed: make(chan struct{})}
+		srv := &radius.PacketServer{
+			ErrorLog:     log.New(io.Discard, "", 0),
+			SecretSource: radius.StaticSecretSource([]byte("s3cr3t")),
+			Handler:      radius.HandlerFunc(func(w radius.ResponseWriter, r *radius.Request) {}),
+		}
+		release := radius.VerifHoldServer(srv)
+		serveErr, sdErr := make(chan error, 1), make(chan error, 1)
+		serve := func() { serveErr <- srv.Serve(conn) }
+		shut := func() { sdErr <- srv.Shutdown(context.Background()) }
+		first, second := serve, shut
+		if shutdownFirst {
+			first, second = shut, serve
+		}
+		go first()
+		time.Sleep(30 * time.Millisecond) // now queued on the mutex
+		go second()
+		time.Sleep(30 * time.Millisecond)
+		release()
+		what := fmt.Sprintf("round %d (Shutdown queued on the server's mutex %s a Serve call)", round, map[bool]string{true: "before", false: "after"}[shutdownFirst])
+		select {
+		case err := <-sdErr:
+			if err != nil {
+				return false, fmt.Sprintf("%s: Shutdown(Background) = %v, want nil", what, err)
+			}
+		case <-time.After(5 * time.Second):
+			return false, what + ": Shutdown(Background) did not return"
+		}
+		// Shutdown has returned nil: the Serve call is over (its return value is delivered by another goroutine)
+		select {
+		case err := <-serveErr:
+			if err != radius.ErrServerShutdown {
+				return false, fmt.Sprintf("%s: Serve = %v, want ErrServerShutdown", what, err)
+			}
+		case <-time.After(time.Second):
+			return false, fmt.Sprintf("%s: Shutdown returned nil but the Serve call is still running one second later (Close was called %d times on its listener)", what, atomic.LoadInt32(&conn.nclose))
+		}
+		if n := atomic.LoadInt32(&conn.nclose); !shutdownFirst && n != 1 {
+			return false, fmt.Sprintf("%s: the registered listener was closed %d times, want 1", what, n)
+		}
+	}
+	return true, ""
+}
+
+func init() { scenarios["c07-queued-on-mutex"] = scenarioQueuedOnMutex }
